@@ -118,6 +118,36 @@ func genJID(t *rapid.T, label string) jid.JID {
 	local := rapid.StringOfN(rapid.SampledFrom(localRunes), 0, 6, -1).Draw(t, label+"-local")
 	domain := rapid.SampledFrom(domains).Draw(t, label+"-domain")
 	res := rapid.StringOfN(rapid.SampledFrom(resourceRunes), 0, 8, -1).Draw(t, label+"-res")
+	if rapid.IntRange(0, 19).Draw(t, label+"-long") == 0 {
+		// an address at (or just below) the size limit of its parts: 1023 bytes
+		// each, 3071 in all with the separators
+		cut := func(n int) int { return 1023 - rapid.SampledFrom([]int{0, 0, 1, 2, 500}).Draw(t, label+"-short") + 0*n }
+		local = strings.Repeat("l", cut(0))
+		res = strings.Repeat("r", cut(1))
+		if rapid.Bool().Draw(t, label+"-longdomain") {
+			// labels of at most 63 bytes up to the wanted size
+			total := cut(2)
+			var sb strings.Builder
+			for sb.Len() < total {
+				n := total - sb.Len()
+				if sb.Len() > 0 {
+					sb.WriteByte('.')
+					n--
+				}
+				if n > 63 {
+					n = 63
+				}
+				if n == 0 {
+					n = 1
+				}
+				sb.WriteString(strings.Repeat("d", n))
+			}
+			domain = sb.String()
+			if len(domain) > 1023 {
+				domain = domain[:1023]
+			}
+		}
+	}
 	var j jid.JID
 	var err error
 	if p := guard(func() { j, err = jid.New(local, domain, res) }); p != "" || err != nil {
